@@ -9,7 +9,7 @@ ASSUME = ['demonic oracle (kani/src/oracle.rs): any correct SatSolver may return
 def run(tier, seed):
     return kani_check.run("C01", ["c01_"], tier, seed, dict(
         functions=FUNCS, bounds="single-extension queries (SE) of the stable, grounded (GR / SE-CO) solvers; " + BOUNDS, assumptions=ASSUME),
-        jobs=6)
+        jobs=8 if tier == "thorough" else 6)
 
 
 def replay(path):
